@@ -38,9 +38,18 @@ fn one_case(rep: &Report, case: &Case, _rng: &mut Rng) {
     let res = block(async {
         let ctx1 = SessionContext::new_with_config(base_config());
         register_db_parquet(&ctx1, &case.db, &case.layout, dir.path()).await?;
-        let unopt = ctx1.state().create_logical_plan(&sql).await?;
-        let opt = ctx1.state().optimize(&unopt)?;
-        let base = exec_logical(&ctx1, unopt.clone()).await?;
+        // planning and running the ORIGINAL plan is not this property's subject: a panic there is a skip
+        let orig = guarded(async {
+            let unopt = ctx1.state().create_logical_plan(&sql).await?;
+            let opt = ctx1.state().optimize(&unopt)?;
+            let base = exec_logical(&ctx1, unopt.clone()).await?;
+            Ok::<_, datafusion::error::DataFusionError>((unopt, opt, base))
+        })
+        .await;
+        let (unopt, opt, base) = match orig {
+            Err(p) => return Ok((vec![], vec![(format!("original-plan-panics/{}", p.rsplit(" @ ").next().unwrap_or("").rsplit('/').next().unwrap_or("")), false)], 0, vec![])),
+            Ok(r) => r?,
+        };
         let mut findings: Vec<(String, vcommon::Json)> = vec![];
         let mut stats: Vec<(String, bool)> = vec![];
         for (form, plan) in [("unoptimized", &unopt), ("optimized", &opt)] {
@@ -136,7 +145,7 @@ fn one_case(rep: &Report, case: &Case, _rng: &mut Rng) {
                 }
             }
             for (sig, w) in findings {
-                rep.violation(&sig, w);
+                rep.violation(&refine(&sig, &w), w);
             }
             if rep.want_sample() && ok == 4 {
                 rep.sample(json!({"sql": case.sql, "roundtrips": ok}));
@@ -145,11 +154,30 @@ fn one_case(rep: &Report, case: &Case, _rng: &mut Rng) {
     }
 }
 
+/// Known root cause keyed by its own signature: the EmptyRelation message carries no schema, so an
+/// `EmptyRelation: rows=0 [cols..]` left by the optimizer decodes as `[]`; parents that still
+/// reference its columns then fail to decode ("No field named ...").
+fn refine(sig: &str, w: &vcommon::Json) -> String {
+    let s = |k: &str| w.get(k).and_then(|v| v.as_str()).unwrap_or("").to_string();
+    let has_typed_empty = |plan: &str| plan.lines().any(|l| l.contains("EmptyRelation") && !l.trim_end().ends_with("[]"));
+    if sig.starts_with("plan-text-differs/") {
+        let (b, a) = (s("before"), s("after"));
+        let strip = |t: &str| t.lines().filter(|l| !l.contains("EmptyRelation")).collect::<Vec<_>>().join("\n");
+        if has_typed_empty(&b) && strip(&b) == strip(&a) {
+            return "empty-relation-schema-not-serialized/plan-text-differs".into();
+        }
+    }
+    if (sig.starts_with("decode-fails/") || sig.starts_with("decoded-plan-fails/")) && has_typed_empty(&s("plan")) && s("error").contains("No field named") {
+        return "empty-relation-schema-not-serialized/decode-fails".into();
+    }
+    sig.to_string()
+}
+
 fn run(args: &Args) -> i32 {
     let rep = Report::new("C35", "exploration", args);
     rep.set_rule("case = generated query over Parquet listing tables; its unoptimized and optimized logical plans are encoded (binary and JSON), decoded in a fresh session with the same tables, compared by display_indent_schema text and by differential execution; every expression of the plan is round-tripped through Expr::to_bytes/from_bytes and compared with ==; distinct = hash(case, plan node kinds); non-trivial = at least one successful round trip");
     rep.assume("encode failures are skips (the property is conditional) and are counted by reason");
-    let cfg = gen_cfg_from(args, "full");
+    let cfg = gen_cfg_from(args, "simple");
     rep.extra("generator_fragment", json!(format!("{cfg:?}")));
     for_each_case(args, &rep, 0xC35, args.bound("systematic", 300, 2000), args.bound("random", 300, 8000), &cfg, |case, rng, _| one_case(&rep, case, rng));
     rep.obligation("roundtrips", rep.get_count("roundtrip/optimized/binary") > 100, "plans must actually round-trip");
